@@ -73,7 +73,12 @@ def run_properties(props, args, seed, scratch, manifest):
         obls = [o for o in obls if not is_slow(o)]
     else:
         slow_skipped = []
-    smt_obls = [o for o in obls if o["backend"] == "smt"]
+    def is_excepted(o):
+        e = exception_for(o["name"], exceptions0)
+        return e is not None and e["kind"] in ("assumed", "unclaimed")
+    # obligations that are not claimed are not sent to the solvers in the quick tier
+    unsolved = set(o["name"] for o in obls if o["backend"] == "smt" and is_excepted(o) and not thorough)
+    smt_obls = [o for o in obls if o["backend"] == "smt" and o["name"] not in unsolved]
     results = {}
     # one job per query: an obligation whose goal is a conjunction comes as several parts
     jobs = []
@@ -82,11 +87,24 @@ def run_properties(props, args, seed, scratch, manifest):
         for i, smt in enumerate(parts):
             jobs.append((o, i, smt, len(parts)))
     partial = {}
-    with cf.ThreadPoolExecutor(max_workers=int(os.environ.get("VERIF_JOBS", "12"))) as ex:
+    with cf.ThreadPoolExecutor(max_workers=int(os.environ.get("VERIF_JOBS", "16"))) as ex:
         futs = {ex.submit(chk.discharge1, o, smt, (".p%d" % (i + 1)) if n > 1 else "", scratch, timeout, seed, thorough): (o, i) for o, i, smt, n in jobs}
         for fu in cf.as_completed(futs):
             o, i = futs[fu]
             partial.setdefault(o["name"], {})[i] = fu.result()
+    # second chance: the few queries still undecided are raced again, alone on the machine, with
+    # a longer limit and other seeds (instantiation-heavy proofs are timing- and seed-sensitive)
+    retry = [(o, i, smt, n) for o, i, smt, n in jobs if not o.get("cover") and partial[o["name"]][i]["answer"] in ("unknown", "error")]
+    if 0 < len(retry) <= 24:
+        with cf.ThreadPoolExecutor(max_workers=2) as ex:
+            futs = {ex.submit(chk.discharge1, o, smt, (".p%d" % (i + 1)) if n > 1 else "", scratch, timeout * 3, seed + 10, thorough): (o, i) for o, i, smt, n in retry}
+            for fu in cf.as_completed(futs):
+                o, i = futs[fu]
+                r2 = fu.result()
+                if r2["answer"] in ("sat", "unsat"):
+                    r2["time"] += partial[o["name"]][i]["time"]
+                    r2["retried"] = True
+                    partial[o["name"]][i] = r2
     for o in smt_obls:
         rs = partial[o["name"]]
         order = sorted(rs)
@@ -113,6 +131,12 @@ def run_properties(props, args, seed, scratch, manifest):
                 ans.update(rs[i]["answers"])
             r["contradiction"] = any(rs[i]["contradiction"] for i in order)
         results[o["name"]] = r
+    if args.verbose:
+        nq = len(jobs)
+        nrace = sum(1 for name in partial for i in partial[name] if len(partial[name][i]["answers"]) > 1)
+        print("queries: %d, raced (first attempt undecided): %d" % (nq, nrace))
+        slow = sorted(results.items(), key=lambda kv: -kv[1]["time"])[:8]
+        print("slowest:", ", ".join("%s %.1fs(%s)" % (k, v["time"], v["answer"]) for k, v in slow))
     known = load_known()
     baseline = load_baseline()
     exceptions = load_exceptions()
@@ -137,8 +161,11 @@ def run_properties(props, args, seed, scratch, manifest):
             if exc is not None and exc["kind"] == "slow":
                 exc = None  # thorough tier: claimed like any other obligation
             if exc is not None:
-                ok = (o["backend"] == "static" and o.get("static") == "ok") or (o["backend"] == "smt" and results[name]["answer"] == ("sat" if o.get("cover") else "unsat"))
-                excepted.append({"obligation": name, "kind": exc["kind"], "reason": exc["reason"], "holds_anyway": bool(ok)})
+                if name in results:
+                    ok = results[name]["answer"] == ("sat" if o.get("cover") else "unsat")
+                    excepted.append({"obligation": name, "kind": exc["kind"], "reason": exc["reason"], "holds_anyway": bool(ok)})
+                else:
+                    excepted.append({"obligation": name, "kind": exc["kind"], "reason": exc["reason"]})
                 continue
             total += 1
             if o["backend"] == "static":
